@@ -3,7 +3,8 @@ path condition (source text, normalised by ast.unparse) under which it is raised
 
 A gate that is deleted, widened, reordered or whose literal changes alters the generated list and the
 pinning lemma in Proofs/Gates.v no longer checks (tie broken); the check then searches the mutant stream
-for an input that is now wrongly accepted."""
+for an input that is now wrongly accepted.  Conditions are printed in a canonical form (see Canon below) so
+that renaming a local, flipping a comparison or turning an else into an early exit prints the same text."""
 from __future__ import annotations
 
 import ast
@@ -57,25 +58,132 @@ def exc_name(r: ast.Raise, path):
     raise TranslateError(f"{path}:{r.lineno}: unsupported raise expression")
 
 
-def collect(stmts, conds, out, path):
+# ---------------------------------------------------------------------------------------------------------------
+# Canonical form of a gate condition.  The inventory is compared literally with the one pinned in Proofs/Gates.v, so
+# rewrites that cannot change which inputs are refused must print the same text:
+#   * local variables (assigned names, loop targets; not parameters) are numbered in order of first appearance ($1, $2 ..),
+#     so renaming a local does not matter; attributes of self and module-level names stay as written;
+#   * `not (a OP b)` is printed with the flipped operator; `x < lo or x > hi` and `not lo <= x <= hi` both print as
+#     outside(x, lo, hi); `a == b or a == c` prints as `a in (b, c)`, `a != b and a != c` as `a not in (b, c)`;
+#     list / set displays on the right of `in` print as tuples;
+#   * a loop over a literal tuple keeps its elements (they are part of the gate), any other loop prints as `loop`;
+#   * an `if` whose body always leaves the function (raise / return) lets the following statements fall through
+#     without recording its negation, so `if a: raise X` + `if b: raise Y` and `if a: raise X elif b: raise Y` agree.
+FLIP = {ast.Eq: ast.NotEq, ast.NotEq: ast.Eq, ast.Lt: ast.GtE, ast.GtE: ast.Lt, ast.Gt: ast.LtE, ast.LtE: ast.Gt,
+        ast.In: ast.NotIn, ast.NotIn: ast.In, ast.Is: ast.IsNot, ast.IsNot: ast.Is}
+
+
+def local_names(fn):
+    # parameters are part of the public signature (keyword arguments): they keep their names
+    params = {a.arg for a in fn.args.posonlyargs + fn.args.args + fn.args.kwonlyargs}
+    names = set()
+    for n in ast.walk(fn):
+        if isinstance(n, ast.Name) and isinstance(n.ctx, ast.Store) and n.id not in params:
+            names.add(n.id)
+    return names
+
+
+class Canon(ast.NodeTransformer):
+    def __init__(self, locals_, numbering):
+        self.locals = locals_
+        self.numbering = numbering
+
+    def visit_Name(self, n):
+        if n.id in self.locals:
+            return ast.copy_location(ast.Name(id=f"LOCAL__{n.id}__", ctx=n.ctx), n)
+        return n
+
+    def visit_UnaryOp(self, n):
+        self.generic_visit(n)
+        if isinstance(n.op, ast.Not):
+            o = n.operand
+            if isinstance(o, ast.Compare) and len(o.ops) == 1 and type(o.ops[0]) in FLIP:
+                return ast.Compare(left=o.left, ops=[FLIP[type(o.ops[0])]()], comparators=o.comparators)
+            if isinstance(o, ast.Compare) and len(o.ops) == 2 and all(isinstance(x, ast.LtE) for x in o.ops):
+                return ast.Call(func=ast.Name(id="outside", ctx=ast.Load()),
+                                args=[o.comparators[0], o.left, o.comparators[1]], keywords=[])
+            if isinstance(o, ast.UnaryOp) and isinstance(o.op, ast.Not):
+                return o.operand
+        return n
+
+    def visit_Compare(self, n):
+        self.generic_visit(n)
+        if len(n.ops) == 1 and isinstance(n.ops[0], (ast.In, ast.NotIn)) and isinstance(n.comparators[0], (ast.List, ast.Set)):
+            n.comparators[0] = ast.Tuple(elts=n.comparators[0].elts, ctx=ast.Load())
+        return n
+
+    def visit_BoolOp(self, n):
+        self.generic_visit(n)
+        d = [ast.dump(v) for v in n.values]
+        if isinstance(n.op, ast.Or) and len(n.values) == 2 and all(isinstance(v, ast.Compare) and len(v.ops) == 1 for v in n.values):
+            a, b = n.values
+            # x < lo or x > hi   (either order)
+            for lo_c, hi_c in ((a, b), (b, a)):
+                if isinstance(lo_c.ops[0], ast.Lt) and isinstance(hi_c.ops[0], ast.Gt) and ast.dump(lo_c.left) == ast.dump(hi_c.left):
+                    return ast.Call(func=ast.Name(id="outside", ctx=ast.Load()),
+                                    args=[lo_c.left, lo_c.comparators[0], hi_c.comparators[0]], keywords=[])
+        same_left = all(isinstance(v, ast.Compare) and len(v.ops) == 1 and ast.dump(v.left) == ast.dump(n.values[0].left)
+                        for v in n.values)
+        if same_left and isinstance(n.op, ast.Or) and all(isinstance(v.ops[0], ast.Eq) for v in n.values):
+            return ast.Compare(left=n.values[0].left, ops=[ast.In()],
+                               comparators=[ast.Tuple(elts=[v.comparators[0] for v in n.values], ctx=ast.Load())])
+        if same_left and isinstance(n.op, ast.And) and all(isinstance(v.ops[0], ast.NotEq) for v in n.values):
+            return ast.Compare(left=n.values[0].left, ops=[ast.NotIn()],
+                               comparators=[ast.Tuple(elts=[v.comparators[0] for v in n.values], ctx=ast.Load())])
+        del d
+        return n
+
+
+def number_locals(text):
+    """locals are numbered per gate, in order of first appearance in its path condition"""
+    import re
+    seen = {}
+    return re.sub(r"LOCAL__(\w+?)__", lambda m: "L%d" % seen.setdefault(m.group(1), len(seen) + 1), text)
+
+
+def canon(expr, ctx, negate=False):
+    e = ast.parse(ast.unparse(expr), mode="eval").body          # private copy
+    if negate:
+        e = ast.UnaryOp(op=ast.Not(), operand=e)
+    e = Canon(*ctx).visit(e)
+    return ast.unparse(ast.fix_missing_locations(e))
+
+
+def leaves(stmts):
+    """True when the statement list always leaves the function (raise / return on every path)"""
+    for st in stmts:
+        if isinstance(st, (ast.Raise, ast.Return)):
+            return True
+        if isinstance(st, ast.If) and st.orelse and leaves(st.body) and leaves(st.orelse):
+            return True
+    return False
+
+
+def collect(stmts, conds, out, path, ctx):
     for st in stmts:
         if isinstance(st, ast.Raise):
-            out.append((" and ".join(conds) if conds else "True", exc_name(st, path)))
+            out.append((number_locals(" and ".join(conds)) if conds else "True", exc_name(st, path)))
         elif isinstance(st, ast.If):
-            t = ast.unparse(st.test)
-            collect(st.body, conds + [f"({t})"], out, path)
-            collect(st.orelse, conds + [f"not ({t})"], out, path)
+            collect(st.body, conds + [f"({canon(st.test, ctx)})"], out, path, ctx)
+            if leaves(st.body):
+                collect(st.orelse, conds, out, path, ctx)       # fall-through: same as statements after the if
+            else:
+                collect(st.orelse, conds + [f"({canon(st.test, ctx, negate=True)})"], out, path, ctx)
         elif isinstance(st, (ast.For, ast.While)):
-            hdr = ast.unparse(st.target) + " in " + ast.unparse(st.iter) if isinstance(st, ast.For) else ast.unparse(st.test)
-            collect(st.body, conds + [f"loop[{hdr}]"], out, path)
-            collect(st.orelse, conds, out, path)
+            if isinstance(st, ast.For) and isinstance(st.iter, (ast.Tuple, ast.List)) and \
+                    all(isinstance(x, ast.Constant) for x in st.iter.elts):
+                hdr = f"loop[{canon(st.target, ctx)} in {ast.unparse(ast.Tuple(elts=st.iter.elts, ctx=ast.Load()))}]"
+            else:
+                hdr = "loop"
+            collect(st.body, conds + [hdr], out, path, ctx)
+            collect(st.orelse, conds, out, path, ctx)
         elif isinstance(st, ast.Try):
-            collect(st.body, conds + ["try"], out, path)
+            collect(st.body, conds + ["try"], out, path, ctx)
             for h in st.handlers:
-                collect(h.body, conds + [f"except[{ast.unparse(h.type) if h.type else ''}]"], out, path)
-            collect(st.finalbody, conds, out, path)
+                collect(h.body, conds + [f"except[{ast.unparse(h.type) if h.type else ''}]"], out, path, ctx)
+            collect(st.finalbody, conds, out, path, ctx)
         elif isinstance(st, ast.With):
-            collect(st.body, conds, out, path)
+            collect(st.body, conds, out, path, ctx)
         elif isinstance(st, (ast.FunctionDef, ast.ClassDef)):
             continue
 
@@ -89,7 +197,7 @@ def gen_gates(repo):
         for q in funcs:
             fn = find_func(tree, q, path)
             out = []
-            collect(fn.body, [], out, path)
+            collect(fn.body, [], out, path, (local_names(fn), {}))
             name = f"{prefix}_{q.replace('.', '_').replace('__', '')}_raises"
             rows = ";\n  ".join(f"({coq_string(c)}, {coq_string(e)})" for c, e in out)
             lines.append(f"Definition {name} : list (string * string) := [\n  {rows}\n].\n")
